@@ -207,7 +207,7 @@ theorem step_mono {s s' : State} {l : Label} (h : step s l = some s') :
     · cases h
   case issue | peerDrop | connSig | connAge | connBreak | connDropWatcher | hsDone | final =>
     obtain ⟨_, _, _, rfl⟩ := updConn_some h; simp
-  case permit | cancel | callStart | produce | deliver =>
+  case permit | reqSend | cancel | callStart | produce | deliver =>
     obtain ⟨_, _, _, _, _, rfl⟩ := updCall_some h; simp
   case loopAccept =>
     split at h
